@@ -267,7 +267,7 @@ def _build():
     d  = platform.request("d")
     q0 = platform.request("q", 0)
     q1 = platform.request("q", 1)
-    s0 = Signal(4); s1 = Signal(4, name_override="x"); s2 = Signal(4, name_override="x")
+    s0 = Signal(4); s1 = Signal(4, name_override="x"); s2 = Signal(4, name_override="x2")
     for s in (s0, s1):
         s.attr.add("keep"); s.attr.add("no_retiming"); s.attr.add(("syn_x", "1")); s.attr.add(("a_first", 3))
     m.specials += MultiReg(d, s0, "b"), MultiReg(s0, s1, "sys", n=3)
@@ -283,6 +283,57 @@ def _build():
         r = platform.get_verilog(m, name="top")
     except TypeError:
         r = platform.get_verilog(m)
+    return r.main_source
+'''
+
+# 2b. multi-target comb groups (If / Case driving several signals: one always-block with several default-assignment
+#     lines, `sorted(g[0], key=get_name)`), multi-target sync, two domains; all names pairwise different
+GROUP_DESIGN = HEAD + '''
+def _build():
+    d = Module()
+    d.clock_domains.cd_sys = ClockDomain("sys")
+    d.clock_domains.cd_b   = ClockDomain("b")
+    sel = Signal(3, name="sel")
+    a   = Signal(8, name="a")
+    ios = {sel, a, d.cd_sys.clk, d.cd_sys.rst, d.cd_b.clk, d.cd_b.rst}
+    outs = []
+    for gk, names in enumerate(%(groups)r):
+        ts = [Signal(1 + (k %% 4), name=n, reset=k %% 2) for k, n in enumerate(names)]
+        if gk %% 2 == 0:
+            d.comb += If(sel[gk %% 3], *[t.eq(a[:len(t)]) for t in ts]).Elif(a[0], ts[0].eq(1), ts[-1].eq(0))
+        else:
+            d.comb += Case(sel, dict([(k, [t.eq(a[k:k + len(t)])] + ([ts[0].eq(1)] if k else [])) for k, t in enumerate(ts)] +
+                                     [("default", [ts[-1].eq(1)])]))
+        outs += ts
+        ios.update(ts[::2])
+    r1 = Signal(4, name="r1"); r2 = Signal(4, name="r2"); r3 = Signal(4, name="r3"); r4 = Signal(4, name="r4")
+    d.sync   += If(sel[0], r1.eq(a), r2.eq(r1)).Else(r2.eq(0))
+    d.sync.b += Case(sel, {0: [r3.eq(a)], 1: [r4.eq(r3), r3.eq(1)]})
+    res = Signal(64, name="res")
+    d.comb += res.eq(Cat(*outs, r1, r2, r3, r4))
+    ios.add(res)
+    r = verilog.convert(d, ios=ios, name="top", regular_comb=%(regular)r)
+    return r.main_source
+'''
+
+# 2c. TIE designs: several signals with one base name among the IOs, among the internal signals and among the targets
+#     of one comb group.  Which of them is issued `x` / `x_1` / `x_2` follows the FIRST-request order = iteration order
+#     of a set of Signals (candidate finding C02-tie-order).
+TIE_DESIGN = HEAD + '''
+def _build():
+    d = Module()
+    a  = Signal(8, name="a_in")
+    xs = [Signal(1 + k, name_override=%(n1)r) for k in range(%(nx)d)]
+    ys = [Signal(1 + k, name_override=%(n2)r) for k in range(%(ny)d)]
+    zs = [Signal(2 + k, name=%(n3)r) for k in range(3)]
+    for k, x in enumerate(xs):
+        d.comb += x.eq(a[:1 + k])
+    for k, y in enumerate(ys):
+        d.comb += y.eq(xs[k %% len(xs)] + k)
+    d.comb += If(a[0], *[z.eq(a[:len(z)]) for z in zs])
+    res = Signal(32, name="res")
+    d.comb += res.eq(Cat(*ys, *zs))
+    r = verilog.convert(d, ios={a, res} | set(xs), name="top")
     return r.main_source
 '''
 
@@ -334,12 +385,30 @@ def emission_corpus(rng, quick=True):
             instname=rng.choice([None, "u", "buf"]), regular=(k % 4 != 3))))
     for kind in (("vivado", "trellis", "quartus") if quick else ("vivado", "ise", "trellis", "diamond", "quartus", "icestorm")):
         out.append(("platform/%s" % kind, PLATFORM_DESIGN % dict(kind=kind)))
+    pool = ["t", "u", "zq", "aa", "m0", "dat", "x9", "hit", "stb", "ack", "w_e", "q7", "lo", "hi", "k", "cyc", "err", "sel_o", "b2", "c3", "d4", "e5", "f6", "g7"]
+    for k in range(2 if quick else 8):
+        names = rng.sample(pool, len(pool))
+        groups, pos = [], 0
+        for _ in range(4):
+            n = rng.randint(2, 6)
+            groups.append(names[pos:pos + n])
+            pos += n
+        out.append(("comb-groups/%d" % k, GROUP_DESIGN % dict(groups=groups, regular=(k % 2 == 0))))
     # several black boxes of DIFFERENT cells in one module: the `[CELL]` lines of the hierarchy comment are compared too
     # (fixed finding C02-hierarchy-order: they were sorted by heap address).
     cells = ["PLLX", "BUFA", "IOBUFZ", "BUFA", "DNA", "CARRY9", "AND2"]
     for k in range(1 if quick else 3):
         rng.shuffle(cells)
         out.append(("soc/%d" % k, SOC_DESIGN % dict(csrw=rng.choice([8, 32]), cells=list(cells))))
+    return out
+
+
+def tie_corpus(rng, quick=True):
+    """Designs inside the region of the candidate finding C02-tie-order (labels start with `tie/`)."""
+    out = []
+    for k in range(2 if quick else 6):
+        out.append(("tie/%d" % k, TIE_DESIGN % dict(n1=rng.choice(["x", "pad"]), n2=rng.choice(["y", "x"]), n3=rng.choice(["z", "q"]),
+                                                    nx=rng.randint(2, 4), ny=rng.randint(2, 5))))
     return out
 
 
@@ -396,48 +465,77 @@ def hierarchy_case(rng, ncells=8, trials=12):
     return last
 
 
+DUID_OFFSETS = (0, 1, 2, 3, 5, 8, 13, 64)      # dummy objects elaborated before a REBUILD of the design in the same interpreter
+
 BATCH_CHILD = r'''
 import sys, json, traceback
 sys.path.insert(0, %(harness)r)
 import envshim; envshim.install()
 import c02lib
+from migen import Signal
+from migen.fhdl.specials import Instance, Memory
 corpus = json.load(open(sys.argv[1]))
-out = []
-for label, src in corpus:
+offsets = json.loads(sys.argv[2])
+KEEP = []
+
+def build(label, src):
     try:
         g = {"__name__": "c02emit"}
         exec(compile(src, "<c02emit %%s>" %% label, "exec"), g)
-        out.append(c02lib.strip_dates(g["_build"]()))
+        return c02lib.strip_dates(g["_build"]())
     except Exception:
-        out.append("ERROR " + traceback.format_exc()[-1200:])
+        return "ERROR " + traceback.format_exc()[-1200:]
     finally:
         try:
             from litex.gen import LiteXContext
             LiteXContext.top = None; LiteXContext.platform = None; LiteXContext.toolchain = None; LiteXContext.soc = None
         except Exception:
             pass
-json.dump(out, sys.stdout)
+
+first, later = [], []
+for label, src in corpus:
+    first.append(build(label, src))
+    ts = []
+    for k in offsets:
+        # unrelated objects elaborated before the design is built again: shifts every DUID of the design by its own
+        # size plus k (Signals hash by DUID) and moves heap addresses (specials / clock domains hash by address)
+        for n in range(k):
+            KEEP.append(Signal())
+            if n %% 5 == 0:
+                KEEP.append(Instance("DUMMY")); KEEP.append(Memory(1, 2))
+        ts.append([k, build(label, src)])
+    later.append(ts)
+json.dump({"first": first, "later": later}, sys.stdout)
 '''
 
 
-def start_corpus_procs(corpus, seeds=HASHSEEDS):
-    """One fresh interpreter per hash seed converts the whole corpus.  Returns a handle for `collect`."""
+class Results(dict):
+    '''{hashseed: [first-build text per design] | "ERROR ..."}; `.later[hashseed][design] = [[k, text], ...]` are the
+    rebuilds of the design in the same interpreter after k extra objects.'''
+    later = None
+
+
+def start_corpus_procs(corpus, seeds=HASHSEEDS, offsets=DUID_OFFSETS):
+    '''One fresh interpreter per hash seed converts the whole corpus, then rebuilds every design after k dummy objects
+    for its share of `offsets`.  Returns a handle for `collect`.'''
     d = tempfile.mkdtemp(prefix="c02e_")
     with open(os.path.join(d, "corpus.json"), "w") as f:
         json.dump(corpus, f)
     with open(os.path.join(d, "child.py"), "w") as f:
         f.write(BATCH_CHILD % {"harness": os.path.dirname(os.path.abspath(__file__))})
     procs = []
-    for hs in seeds:
+    for i, hs in enumerate(seeds):
         env = dict(os.environ, PYTHONHASHSEED=str(hs), PYTHONDONTWRITEBYTECODE="1")
-        procs.append((hs, subprocess.Popen([sys.executable, os.path.join(d, "child.py"), os.path.join(d, "corpus.json")],
+        share = list(offsets[i::len(seeds)])
+        procs.append((hs, subprocess.Popen([sys.executable, os.path.join(d, "child.py"), os.path.join(d, "corpus.json"), json.dumps(share)],
                                            stdout=subprocess.PIPE, stderr=subprocess.PIPE, text=True, env=env, cwd=d)))
     return d, procs
 
 
-def collect(handle, timeout=240):
+def collect(handle, timeout=300):
     d, procs = handle
-    res = {}
+    res = Results()
+    res.later = {}
     try:
         for hs, p in procs:
             try:
@@ -448,12 +546,35 @@ def collect(handle, timeout=240):
                 res[hs] = "ERROR did not finish within %d s" % timeout
                 continue
             try:
-                res[hs] = json.loads(o) if p.returncode == 0 else "ERROR rc=%s %s" % (p.returncode, (e or "")[-600:])
+                if p.returncode == 0:
+                    r = json.loads(o)
+                    res[hs] = r["first"]
+                    res.later[hs] = r["later"]
+                else:
+                    res[hs] = "ERROR rc=%s %s" % (p.returncode, (e or "")[-600:])
             except ValueError:
                 res[hs] = "ERROR unreadable output %r" % (o[-300:],)
     finally:
         shutil.rmtree(d, ignore_errors=True)
     return res
+
+
+def offset_differences(corpus, res):
+    '''DUID-offset dimension: [(label, source, hashseed, k, differing lines)] — a rebuild of the design in the same
+    interpreter after k extra objects whose text differs from the first build.'''
+    diffs = []
+    for hs in sorted(res.later or {}):
+        if isinstance(res[hs], str):
+            continue
+        for idx, (label, src) in enumerate(corpus):
+            base = res[hs][idx]
+            if base.startswith("ERROR"):
+                continue
+            for k, t in res.later[hs][idx]:
+                if t != base:
+                    diffs.append((label, src, hs, k, L.text_diff(base, t) if not t.startswith("ERROR") else [t[-600:]]))
+                    break
+    return diffs
 
 
 def corpus_differences(corpus, res):
